@@ -1,17 +1,1820 @@
-//! C10 — engine not implemented yet.
+//! C10 — retain file: lossless codec and crash-atomic save (cores X1 + X4, level fault_enumeration).
+//!
+//! Three families, all driven through the real `FileRetainStore` of `/repo`:
+//!  1. codec     – every retainable value shape to nesting depth 2 (all 31 tags x boundary payloads):
+//!                 `load(store(s)) == s` (floats compared by bits, maps by name).
+//!  2. crash     – for each (s_old, s_new) pair, `store(s_new)` runs in a child process under the
+//!                 LD_PRELOAD shim `tv/envshim/shim.c`; the child is killed before every intercepted
+//!                 call and inside every write at every byte length; afterwards the real `load()` must
+//!                 give s_old or s_new in full, and `store(s3); load()` must still work.
+//!  3. decode    – byte substitutions / truncations / 4-byte windows on ~20 base images and hand-encoded
+//!                 nesting sweeps, each in an `iso` worker under RLIMIT_AS: outcome must be Ok or Err.
+//!
+//! Left out on purpose (statement does not speak about it): page-cache loss / power failure, store() of
+//! snapshots that contain Reference/Instance values (not retainable), the order of map entries after a
+//! round trip (the subject's own equality is order-insensitive; order changes are only counted).
 
 use crate::fw::*;
-use crate::iso::WorkerFn;
-use serde_json::Value;
+use crate::iso;
+use crate::par::par_map;
+use serde_json::{json, Value as J};
+use smol_str::SmolStr;
+use std::collections::{BTreeMap, BTreeSet, HashMap, HashSet};
+use std::path::{Path, PathBuf};
+use std::sync::atomic::{AtomicU64, Ordering};
+use std::time::{Duration as StdDuration, Instant};
+use trust_runtime::retain::{FileRetainStore, RetainStore};
+use trust_runtime::value::{
+    ArrayValue, DateTimeValue, DateValue, Duration, EnumValue, LDateTimeValue, LDateValue,
+    LTimeOfDayValue, StructValue, TimeOfDayValue, Value,
+};
+use trust_runtime::RetainSnapshot;
 
-pub fn run(_ctx: &Ctx) -> EngineResult {
-    machinery("engine C10 not implemented")
+/// A snapshot as the engine sees it: ordered list of (unique name, value).
+type Snap = Vec<(String, Value)>;
+
+fn to_snapshot(s: &Snap) -> RetainSnapshot {
+    let mut out = RetainSnapshot::default();
+    for (n, v) in s {
+        out.insert(n.as_str(), v.clone());
+    }
+    out
 }
 
-pub fn check_case(_case: &Value) -> Vec<Violation> {
-    Vec::new()
+fn tag(v: &Value) -> &'static str {
+    match v {
+        Value::Bool(_) => "Bool",
+        Value::SInt(_) => "SInt",
+        Value::Int(_) => "Int",
+        Value::DInt(_) => "DInt",
+        Value::LInt(_) => "LInt",
+        Value::USInt(_) => "USInt",
+        Value::UInt(_) => "UInt",
+        Value::UDInt(_) => "UDInt",
+        Value::ULInt(_) => "ULInt",
+        Value::Real(_) => "Real",
+        Value::LReal(_) => "LReal",
+        Value::Byte(_) => "Byte",
+        Value::Word(_) => "Word",
+        Value::DWord(_) => "DWord",
+        Value::LWord(_) => "LWord",
+        Value::Time(_) => "Time",
+        Value::LTime(_) => "LTime",
+        Value::Date(_) => "Date",
+        Value::LDate(_) => "LDate",
+        Value::Tod(_) => "Tod",
+        Value::LTod(_) => "LTod",
+        Value::Dt(_) => "Dt",
+        Value::Ldt(_) => "Ldt",
+        Value::String(_) => "String",
+        Value::WString(_) => "WString",
+        Value::Char(_) => "Char",
+        Value::WChar(_) => "WChar",
+        Value::Array(_) => "Array",
+        Value::Struct(_) => "Struct",
+        Value::Enum(_) => "Enum",
+        Value::Null => "Null",
+        Value::Reference(_) => "Reference",
+        Value::Instance(_) => "Instance",
+    }
 }
 
-pub fn workers() -> Vec<(&'static str, WorkerFn)> {
-    Vec::new()
+// ------------------------------------------------------------------------------------------------
+// JSON form of values (self-contained replay cases). Floats are stored as bit patterns.
+
+fn vj(v: &Value) -> J {
+    let t = tag(v);
+    match v {
+        Value::Bool(x) => json!({"t": t, "v": x}),
+        Value::SInt(x) => json!({"t": t, "v": x}),
+        Value::Int(x) => json!({"t": t, "v": x}),
+        Value::DInt(x) => json!({"t": t, "v": x}),
+        Value::LInt(x) => json!({"t": t, "v": x}),
+        Value::USInt(x) | Value::Byte(x) | Value::Char(x) => json!({"t": t, "v": x}),
+        Value::UInt(x) | Value::Word(x) | Value::WChar(x) => json!({"t": t, "v": x}),
+        Value::UDInt(x) | Value::DWord(x) => json!({"t": t, "v": x}),
+        Value::ULInt(x) | Value::LWord(x) => json!({"t": t, "v": x}),
+        Value::Real(x) => json!({"t": t, "bits": x.to_bits()}),
+        Value::LReal(x) => json!({"t": t, "bits": x.to_bits()}),
+        Value::Time(d) | Value::LTime(d) => json!({"t": t, "v": d.as_nanos()}),
+        Value::Date(d) => json!({"t": t, "v": d.ticks()}),
+        Value::LDate(d) => json!({"t": t, "v": d.nanos()}),
+        Value::Tod(d) => json!({"t": t, "v": d.ticks()}),
+        Value::LTod(d) => json!({"t": t, "v": d.nanos()}),
+        Value::Dt(d) => json!({"t": t, "v": d.ticks()}),
+        Value::Ldt(d) => json!({"t": t, "v": d.nanos()}),
+        Value::String(s) => json!({"t": t, "v": s.as_str()}),
+        Value::WString(s) => json!({"t": t, "v": s}),
+        Value::Array(a) => json!({
+            "t": t,
+            "dims": a.dimensions.iter().map(|(l, u)| json!([l, u])).collect::<Vec<_>>(),
+            "e": a.elements.iter().map(vj).collect::<Vec<_>>(),
+        }),
+        Value::Struct(s) => json!({
+            "t": t,
+            "n": s.type_name.as_str(),
+            "f": s.fields.iter().map(|(k, v)| json!([k.as_str(), vj(v)])).collect::<Vec<_>>(),
+        }),
+        Value::Enum(e) => json!({"t": t, "n": e.type_name.as_str(), "var": e.variant_name.as_str(), "v": e.numeric_value}),
+        Value::Null => json!({"t": t}),
+        Value::Reference(_) | Value::Instance(_) => json!({"t": t}),
+    }
+}
+
+fn jv(j: &J) -> Option<Value> {
+    let i = || j["v"].as_i64();
+    let u = || j["v"].as_u64();
+    Some(match j["t"].as_str()? {
+        "Bool" => Value::Bool(j["v"].as_bool()?),
+        "SInt" => Value::SInt(i()? as i8),
+        "Int" => Value::Int(i()? as i16),
+        "DInt" => Value::DInt(i()? as i32),
+        "LInt" => Value::LInt(i()?),
+        "USInt" => Value::USInt(u()? as u8),
+        "UInt" => Value::UInt(u()? as u16),
+        "UDInt" => Value::UDInt(u()? as u32),
+        "ULInt" => Value::ULInt(u()?),
+        "Real" => Value::Real(f32::from_bits(j["bits"].as_u64()? as u32)),
+        "LReal" => Value::LReal(f64::from_bits(j["bits"].as_u64()?)),
+        "Byte" => Value::Byte(u()? as u8),
+        "Word" => Value::Word(u()? as u16),
+        "DWord" => Value::DWord(u()? as u32),
+        "LWord" => Value::LWord(u()?),
+        "Time" => Value::Time(Duration::from_nanos(i()?)),
+        "LTime" => Value::LTime(Duration::from_nanos(i()?)),
+        "Date" => Value::Date(DateValue::new(i()?)),
+        "LDate" => Value::LDate(LDateValue::new(i()?)),
+        "Tod" => Value::Tod(TimeOfDayValue::new(i()?)),
+        "LTod" => Value::LTod(LTimeOfDayValue::new(i()?)),
+        "Dt" => Value::Dt(DateTimeValue::new(i()?)),
+        "Ldt" => Value::Ldt(LDateTimeValue::new(i()?)),
+        "String" => Value::String(SmolStr::new(j["v"].as_str()?)),
+        "WString" => Value::WString(j["v"].as_str()?.to_string()),
+        "Char" => Value::Char(u()? as u8),
+        "WChar" => Value::WChar(u()? as u16),
+        "Array" => {
+            let mut dimensions = Vec::new();
+            for d in j["dims"].as_array()? {
+                dimensions.push((d[0].as_i64()?, d[1].as_i64()?));
+            }
+            let mut elements = Vec::new();
+            for e in j["e"].as_array()? {
+                elements.push(jv(e)?);
+            }
+            Value::Array(ArrayValue { elements, dimensions })
+        }
+        "Struct" => {
+            let mut fields = indexmap::IndexMap::new();
+            for f in j["f"].as_array()? {
+                fields.insert(SmolStr::new(f[0].as_str()?), jv(&f[1])?);
+            }
+            Value::Struct(StructValue { type_name: SmolStr::new(j["n"].as_str()?), fields })
+        }
+        "Enum" => Value::Enum(EnumValue {
+            type_name: SmolStr::new(j["n"].as_str()?),
+            variant_name: SmolStr::new(j["var"].as_str()?),
+            numeric_value: i()?,
+        }),
+        "Null" => Value::Null,
+        _ => return None,
+    })
+}
+
+fn sj(s: &Snap) -> J {
+    J::Array(s.iter().map(|(n, v)| json!([n, vj(v)])).collect())
+}
+
+fn js(j: &J) -> Option<Snap> {
+    let mut out = Vec::new();
+    for e in j.as_array()? {
+        out.push((e[0].as_str()?.to_string(), jv(&e[1])?));
+    }
+    Some(out)
+}
+
+fn snapshot_to_snap(s: &RetainSnapshot) -> Snap {
+    s.values().iter().map(|(k, v)| (k.to_string(), v.clone())).collect()
+}
+
+// ------------------------------------------------------------------------------------------------
+// Comparison (the codec oracle): bitwise for floats, by name for maps.
+
+fn sint_feat(x: i64, min: i64, max: i64) -> &'static str {
+    if x == min {
+        "min"
+    } else if x == max {
+        "max"
+    } else if x < 0 {
+        "neg"
+    } else if x == 0 {
+        "zero"
+    } else {
+        "pos"
+    }
+}
+
+fn uint_feat(x: u64, max: u64) -> &'static str {
+    if x == 0 {
+        "zero"
+    } else if x == max {
+        "max"
+    } else {
+        "other"
+    }
+}
+
+fn str_feat(s: &str) -> &'static str {
+    if s.is_empty() {
+        "empty"
+    } else if s.contains('\0') {
+        "nul"
+    } else if !s.is_ascii() {
+        "non-ascii"
+    } else if s.len() >= 24 {
+        "long"
+    } else {
+        "ascii"
+    }
+}
+
+/// Payload class of a leaf (part of the signature of a codec mismatch).
+fn feat(v: &Value) -> &'static str {
+    match v {
+        Value::SInt(x) => sint_feat(*x as i64, i8::MIN as i64, i8::MAX as i64),
+        Value::Int(x) => sint_feat(*x as i64, i16::MIN as i64, i16::MAX as i64),
+        Value::DInt(x) => sint_feat(*x as i64, i32::MIN as i64, i32::MAX as i64),
+        Value::LInt(x) => sint_feat(*x, i64::MIN, i64::MAX),
+        Value::USInt(x) | Value::Byte(x) | Value::Char(x) => uint_feat(*x as u64, u8::MAX as u64),
+        Value::UInt(x) | Value::Word(x) | Value::WChar(x) => uint_feat(*x as u64, u16::MAX as u64),
+        Value::UDInt(x) | Value::DWord(x) => uint_feat(*x as u64, u32::MAX as u64),
+        Value::ULInt(x) | Value::LWord(x) => uint_feat(*x, u64::MAX),
+        Value::Real(x) => float_feat(x.is_nan(), x.is_infinite(), *x == 0.0, x.is_subnormal()),
+        Value::LReal(x) => float_feat(x.is_nan(), x.is_infinite(), *x == 0.0, x.is_subnormal()),
+        Value::Time(d) | Value::LTime(d) => sint_feat(d.as_nanos(), i64::MIN, i64::MAX),
+        Value::Date(d) => sint_feat(d.ticks(), i64::MIN, i64::MAX),
+        Value::LDate(d) => sint_feat(d.nanos(), i64::MIN, i64::MAX),
+        Value::Tod(d) => sint_feat(d.ticks(), i64::MIN, i64::MAX),
+        Value::LTod(d) => sint_feat(d.nanos(), i64::MIN, i64::MAX),
+        Value::Dt(d) => sint_feat(d.ticks(), i64::MIN, i64::MAX),
+        Value::Ldt(d) => sint_feat(d.nanos(), i64::MIN, i64::MAX),
+        Value::String(s) => str_feat(s.as_str()),
+        Value::WString(s) => str_feat(s),
+        _ => "any",
+    }
+}
+
+fn float_feat(nan: bool, inf: bool, zero: bool, sub: bool) -> &'static str {
+    if nan {
+        "nan"
+    } else if inf {
+        "inf"
+    } else if zero {
+        "zero"
+    } else if sub {
+        "subnormal"
+    } else {
+        "normal"
+    }
+}
+
+struct Diff {
+    /// where (path of names / indices)
+    path: String,
+    /// cause features for the signature, e.g. `Real:nan`, `Array:dims`
+    sig: String,
+    detail: String,
+}
+
+fn clip(s: &str, n: usize) -> String {
+    let mut out: String = s.chars().take(n).collect();
+    if s.chars().count() > n {
+        out.push('…');
+    }
+    out
+}
+
+fn diff_value(exp: &Value, got: &Value, path: &str) -> Option<Diff> {
+    let mk = |sig: String, detail: String| Some(Diff { path: path.to_string(), sig, detail });
+    if tag(exp) != tag(got) {
+        return mk(format!("{}:tag-changed", tag(exp)), format!("stored a {} but loaded a {}", tag(exp), tag(got)));
+    }
+    match (exp, got) {
+        (Value::Real(a), Value::Real(b)) => {
+            if a.to_bits() != b.to_bits() {
+                return mk(format!("Real:{}", feat(exp)), format!("stored bits {:#010x}, loaded {:#010x}", a.to_bits(), b.to_bits()));
+            }
+            None
+        }
+        (Value::LReal(a), Value::LReal(b)) => {
+            if a.to_bits() != b.to_bits() {
+                return mk(format!("LReal:{}", feat(exp)), format!("stored bits {:#018x}, loaded {:#018x}", a.to_bits(), b.to_bits()));
+            }
+            None
+        }
+        (Value::Array(a), Value::Array(b)) => {
+            if a.dimensions != b.dimensions {
+                return mk("Array:dims".into(), format!("stored dimensions {:?}, loaded {:?}", a.dimensions, b.dimensions));
+            }
+            if a.elements.len() != b.elements.len() {
+                return mk("Array:len".into(), format!("stored {} elements, loaded {}", a.elements.len(), b.elements.len()));
+            }
+            for (i, (x, y)) in a.elements.iter().zip(&b.elements).enumerate() {
+                if let Some(d) = diff_value(x, y, &format!("{path}[{i}]")) {
+                    return Some(d);
+                }
+            }
+            None
+        }
+        (Value::Struct(a), Value::Struct(b)) => {
+            if a.type_name != b.type_name {
+                return mk(format!("Struct:type-name:{}", str_feat(a.type_name.as_str())), format!("stored type name {:?}, loaded {:?}", clip(a.type_name.as_str(), 30), clip(b.type_name.as_str(), 30)));
+            }
+            if a.fields.len() != b.fields.len() {
+                return mk("Struct:field-count".into(), format!("stored {} fields, loaded {}", a.fields.len(), b.fields.len()));
+            }
+            for (k, x) in &a.fields {
+                match b.fields.get(k) {
+                    None => return mk(format!("Struct:field-name:{}", str_feat(k.as_str())), format!("field {:?} missing after load", clip(k.as_str(), 30))),
+                    Some(y) => {
+                        if let Some(d) = diff_value(x, y, &format!("{path}.{}", clip(k.as_str(), 12))) {
+                            return Some(d);
+                        }
+                    }
+                }
+            }
+            None
+        }
+        _ => {
+            if exp != got {
+                return mk(format!("{}:{}", tag(exp), feat(exp)), format!("stored {}, loaded {}", clip(&vj(exp).to_string(), 80), clip(&vj(got).to_string(), 80)));
+            }
+            None
+        }
+    }
+}
+
+fn diff_snap(exp: &Snap, got: &RetainSnapshot) -> Option<Diff> {
+    let g = got.values();
+    if exp.len() != g.len() {
+        return Some(Diff { path: String::new(), sig: "snapshot:count".into(), detail: format!("stored {} entries, loaded {}", exp.len(), g.len()) });
+    }
+    for (n, v) in exp {
+        match g.get(n.as_str()) {
+            None => {
+                return Some(Diff { path: String::new(), sig: format!("snapshot:name:{}", str_feat(n)), detail: format!("entry {:?} missing after load", clip(n, 30)) })
+            }
+            Some(y) => {
+                if let Some(d) = diff_value(v, y, &clip(n, 12)) {
+                    return Some(d);
+                }
+            }
+        }
+    }
+    None
+}
+
+fn same_snap(exp: &Snap, got: &RetainSnapshot) -> bool {
+    diff_snap(exp, got).is_none()
+}
+
+fn order_kept(exp: &Snap, got: &RetainSnapshot) -> bool {
+    exp.iter().map(|(n, _)| n.as_str()).eq(got.values().keys().map(|k| k.as_str()))
+}
+
+fn norm_msg(m: &str) -> String {
+    // drop quoted segments (paths) and digits: signatures must not vary between runs
+    let mut out = String::new();
+    let mut in_q = false;
+    for c in m.chars() {
+        if c == '"' {
+            in_q = !in_q;
+            if in_q {
+                out.push_str("\"…\"");
+            }
+            continue;
+        }
+        if in_q {
+            continue;
+        }
+        if c.is_ascii_digit() {
+            // a run of digits becomes one '#'
+            if !out.ends_with('#') {
+                out.push('#');
+            }
+        } else {
+            out.push(c);
+        }
+    }
+    clip(&out, 60)
+}
+
+fn hash64(b: &[u8]) -> u64 {
+    let mut h: u64 = 0xcbf29ce484222325;
+    for x in b {
+        h ^= *x as u64;
+        h = h.wrapping_mul(0x100000001b3);
+    }
+    h
+}
+
+fn hex(b: &[u8]) -> String {
+    let mut s = String::with_capacity(b.len() * 2);
+    for x in b {
+        s.push_str(&format!("{x:02x}"));
+    }
+    s
+}
+
+fn unhex(s: &str) -> Option<Vec<u8>> {
+    if s.len() % 2 != 0 {
+        return None;
+    }
+    (0..s.len() / 2).map(|i| u8::from_str_radix(s.get(2 * i..2 * i + 2)?, 16).ok()).collect()
+}
+
+// ------------------------------------------------------------------------------------------------
+// Family 1: the value alphabet.
+// Not in the alphabet: duplicate struct field names / duplicate snapshot names (both containers are
+// IndexMaps, so they cannot be constructed through the API); Reference/Instance (not retainable).
+
+fn arr(elements: Vec<Value>, dimensions: Vec<(i64, i64)>) -> Value {
+    Value::Array(ArrayValue { elements, dimensions })
+}
+
+fn st(type_name: &str, fields: Vec<(&str, Value)>) -> Value {
+    Value::Struct(StructValue {
+        type_name: SmolStr::new(type_name),
+        fields: fields.into_iter().map(|(k, v)| (SmolStr::new(k), v)).collect(),
+    })
+}
+
+fn en(t: &str, v: &str, n: i64) -> Value {
+    Value::Enum(EnumValue { type_name: SmolStr::new(t), variant_name: SmolStr::new(v), numeric_value: n })
+}
+
+fn strings() -> Vec<String> {
+    vec![
+        String::new(),
+        "a".into(),
+        "\0".into(),
+        "é".into(),
+        "😀".into(),
+        "a\u{301}\u{200d}z".into(),
+        "x".repeat(23), // SmolStr inline limit
+        "x".repeat(24),
+        "y".repeat(255),
+        "y".repeat(256),
+        "STRN\u{1}\0\0\0".into(), // looks like a file header
+        "é".repeat(300),
+    ]
+}
+
+/// Depth 0: every tag x boundary payloads.
+fn leaves() -> Vec<Value> {
+    let mut v = Vec::new();
+    v.extend([false, true].map(Value::Bool));
+    v.extend([i8::MIN, -1, 0, 1, i8::MAX].map(Value::SInt));
+    v.extend([i16::MIN, -1, 0, 1, 0x0102, i16::MAX].map(Value::Int));
+    v.extend([i32::MIN, -1, 0, 1, 0x01020304, i32::MAX].map(Value::DInt));
+    v.extend([i64::MIN, -1, 0, 1, 0x0102030405060708, i64::MAX].map(Value::LInt));
+    v.extend([0, 1, 0x80, u8::MAX].map(Value::USInt));
+    v.extend([0, 1, 0x8000, 0x0102, u16::MAX].map(Value::UInt));
+    v.extend([0, 1, 0x8000_0000, 0x01020304, u32::MAX].map(Value::UDInt));
+    v.extend([0, 1, 0x8000_0000_0000_0000, 0x0102030405060708, u64::MAX].map(Value::ULInt));
+    let f32s: [u32; 12] = [
+        0, 0x8000_0000, 0x3fc0_0000, 0x0000_0001, 0x7f7f_ffff, 0xff7f_ffff, 0x7f80_0000, 0xff80_0000,
+        0x7fc0_0000, 0x7f80_0001, 0xffff_ffff, 0x7fa0_0000,
+    ];
+    v.extend(f32s.map(|b| Value::Real(f32::from_bits(b))));
+    let f64s: [u64; 12] = [
+        0, 0x8000_0000_0000_0000, 0x3ff8_0000_0000_0000, 1, 0x7fef_ffff_ffff_ffff, 0xffef_ffff_ffff_ffff,
+        0x7ff0_0000_0000_0000, 0xfff0_0000_0000_0000, 0x7ff8_0000_0000_0000, 0x7ff0_0000_0000_0001,
+        0xffff_ffff_ffff_ffff, 0x7ff4_0000_0000_0000,
+    ];
+    v.extend(f64s.map(|b| Value::LReal(f64::from_bits(b))));
+    v.extend([0, 1, 0x80, u8::MAX].map(Value::Byte));
+    v.extend([0, 1, 0x8000, u16::MAX].map(Value::Word));
+    v.extend([0, 1, 0x8000_0000, u32::MAX].map(Value::DWord));
+    v.extend([0, 1, 0x8000_0000_0000_0000, u64::MAX].map(Value::LWord));
+    let t64 = [i64::MIN, -1, 0, 1, 1_000_000_000, i64::MAX];
+    v.extend(t64.map(|n| Value::Time(Duration::from_nanos(n))));
+    v.extend(t64.map(|n| Value::LTime(Duration::from_nanos(n))));
+    v.extend(t64.map(|n| Value::Date(DateValue::new(n))));
+    v.extend(t64.map(|n| Value::LDate(LDateValue::new(n))));
+    v.extend(t64.map(|n| Value::Tod(TimeOfDayValue::new(n))));
+    v.extend(t64.map(|n| Value::LTod(LTimeOfDayValue::new(n))));
+    v.extend(t64.map(|n| Value::Dt(DateTimeValue::new(n))));
+    v.extend(t64.map(|n| Value::Ldt(LDateTimeValue::new(n))));
+    for s in strings() {
+        v.push(Value::String(SmolStr::new(&s)));
+    }
+    for s in strings() {
+        v.push(Value::WString(s));
+    }
+    v.extend([0, 0x41, 0x7f, 0x80, 0xff].map(Value::Char));
+    v.extend([0, 0x41, 0xd800, 0xdfff, 0xffff].map(Value::WChar));
+    v.push(en("", "", 0));
+    v.push(en("Color", "Red", 1));
+    v.push(en("É", "😀", i64::MIN));
+    v.push(en("T", "V", i64::MAX));
+    v.push(en("T", "V", -1));
+    v.push(Value::Null);
+    v
+}
+
+/// One non-trivial representative per tag (the second leaf of each tag group if there is one).
+fn reps(leaves: &[Value]) -> Vec<Value> {
+    let mut out: Vec<Value> = Vec::new();
+    let mut i = 0;
+    while i < leaves.len() {
+        let t = tag(&leaves[i]);
+        let mut j = i;
+        while j < leaves.len() && tag(&leaves[j]) == t {
+            j += 1;
+        }
+        out.push(leaves[(i + 1).min(j - 1)].clone());
+        i = j;
+    }
+    out
+}
+
+/// Depth-1 containers over the leaves `l` (every leaf once) and pairs over `p`.
+fn containers(l: &[Value], p: &[Value]) -> Vec<Value> {
+    let mut v = Vec::new();
+    for dims in [vec![], vec![(0, -1)], vec![(1, 0)], vec![(i64::MIN, i64::MAX)], vec![(0, 0), (0, 0)]] {
+        v.push(arr(vec![], dims));
+    }
+    for tn in ["", "T", "Ünï😀"] {
+        v.push(st(tn, vec![]));
+    }
+    for x in l {
+        v.push(arr(vec![x.clone()], vec![(0, 0)]));
+        v.push(arr(vec![x.clone(), x.clone()], vec![(1, 2)]));
+        v.push(st("T", vec![("f", x.clone())]));
+    }
+    for x in p {
+        v.push(arr(vec![x.clone(); 3], vec![(0, 0), (-1, 1)]));
+        v.push(arr(vec![x.clone()], vec![]));
+        v.push(st("", vec![("", x.clone())]));
+        v.push(st("Ünï😀", vec![("é", x.clone())]));
+        v.push(st("T", vec![("a", x.clone()), ("A", x.clone())]));
+        for y in p {
+            v.push(arr(vec![x.clone(), y.clone()], vec![(0, 1)]));
+            v.push(st("T", vec![("a", x.clone()), ("b", y.clone())]));
+        }
+    }
+    v
+}
+
+/// Small set of depth-1 containers used as elements of depth-2 pairs.
+fn container_reps(r: &[Value]) -> Vec<Value> {
+    let mut v = vec![arr(vec![], vec![]), st("T", vec![])];
+    for x in r {
+        v.push(arr(vec![x.clone()], vec![(0, 0)]));
+        v.push(st("T", vec![("f", x.clone())]));
+    }
+    v
+}
+
+fn nest_depth(v: &Value) -> usize {
+    match v {
+        Value::Array(a) => 1 + a.elements.iter().map(nest_depth).max().unwrap_or(0),
+        Value::Struct(s) => 1 + s.fields.values().map(nest_depth).max().unwrap_or(0),
+        _ => 0,
+    }
+}
+
+/// The whole family-1 space, simplest first.
+fn codec_snapshots(thorough: bool) -> Vec<Snap> {
+    let l = leaves();
+    let r = reps(&l);
+    let pairs: &[Value] = if thorough { &l } else { &r };
+    let d1 = containers(&l, pairs);
+    let d1r = container_reps(&r);
+    let mut vals: Vec<Value> = Vec::new();
+    vals.extend(l.iter().cloned());
+    vals.extend(d1.iter().cloned());
+    // depth 2: every depth-1 container once inside an array and inside a struct, pairs over the reps,
+    // and mixed-depth pairs
+    for d in &d1 {
+        vals.push(arr(vec![d.clone()], vec![(0, 0)]));
+        vals.push(st("T", vec![("f", d.clone())]));
+    }
+    for d in &d1r {
+        for e in &d1r {
+            vals.push(arr(vec![d.clone(), e.clone()], vec![(0, 1)]));
+            vals.push(st("T", vec![("a", d.clone()), ("b", e.clone())]));
+        }
+        for x in &r {
+            vals.push(arr(vec![d.clone(), x.clone()], vec![(0, 1)]));
+            vals.push(arr(vec![x.clone(), d.clone()], vec![(0, 1)]));
+            vals.push(st("T", vec![("a", x.clone()), ("b", d.clone())]));
+        }
+    }
+    let mut out: Vec<Snap> = vec![vec![]];
+    out.extend(vals.into_iter().map(|v| vec![("v".to_string(), v)]));
+    // snapshot-level shapes: names, several entries, many entries
+    let names = ["", "a", "A", "G.x", "é😀", &"n".repeat(23), &"n".repeat(24), &"N".repeat(300), "\0"].map(String::from);
+    for n in &names {
+        for x in &r {
+            out.push(vec![(n.clone(), x.clone())]);
+        }
+    }
+    for x in &r {
+        out.push(vec![("a".into(), x.clone()), ("A".into(), x.clone()), ("".into(), x.clone())]);
+        for y in &r {
+            out.push(vec![("a".into(), x.clone()), ("b".into(), y.clone())]);
+        }
+    }
+    let all: Snap = l.iter().enumerate().map(|(i, v)| (format!("v{i}"), v.clone())).collect();
+    out.push(all.iter().rev().cloned().collect());
+    out.push(all);
+    out.push(d1r.iter().enumerate().map(|(i, v)| (format!("c{i}"), v.clone())).collect());
+    out
+}
+
+struct CodecOut {
+    bytes: Option<Vec<u8>>,
+    order_kept: bool,
+    viol: Vec<Violation>,
+}
+
+/// store + load of one snapshot through the real file store at `path`.
+fn codec_check(path: &Path, snap: &Snap) -> CodecOut {
+    let case = || json!({"kind": "codec", "snap": sj(snap)});
+    let mut out = CodecOut { bytes: None, order_kept: true, viol: Vec::new() };
+    let _ = std::fs::remove_file(path);
+    let store = FileRetainStore::new(path);
+    let snapshot = to_snapshot(snap);
+    match catch(|| store.store(&snapshot)) {
+        Err(m) => {
+            out.viol.push(Violation { signature: format!("C10/panic/store/{}", norm_msg(&m)), what: format!("store() panicked on a retainable snapshot: {m}"), case: case() });
+            return out;
+        }
+        Ok(Err(e)) => {
+            out.viol.push(Violation {
+                signature: format!("C10/codec/store-rejected/{}", norm_msg(&e.to_string())),
+                what: format!("store() refused a snapshot that contains no reference/instance value: {e}"),
+                case: case(),
+            });
+            return out;
+        }
+        Ok(Ok(())) => {}
+    }
+    out.bytes = std::fs::read(path).ok();
+    match catch(|| store.load()) {
+        Err(m) => out.viol.push(Violation { signature: format!("C10/panic/load/{}", norm_msg(&m)), what: format!("load() panicked on a file written by store(): {m}"), case: case() }),
+        Ok(Err(e)) => out.viol.push(Violation {
+            signature: format!("C10/codec/load-err/{}", norm_msg(&e.to_string())),
+            what: format!("load() of a file just written by store() failed: {e}"),
+            case: case(),
+        }),
+        Ok(Ok(got)) => {
+            out.order_kept = order_kept(snap, &got);
+            if let Some(d) = diff_snap(snap, &got) {
+                out.viol.push(Violation {
+                    signature: format!("C10/codec/mismatch/{}", d.sig),
+                    what: format!("load(store(s)) != s at {:?}: {}", d.path, d.detail),
+                    case: case(),
+                });
+            }
+        }
+    }
+    out
+}
+
+// ------------------------------------------------------------------------------------------------
+// Family 2: crash atomicity under the LD_PRELOAD shim.
+
+/// Every path below `<root>/c10crash/` is watched by the shim (the logs live outside of it).
+const WATCH: &str = "/c10crash/";
+static SEQ: AtomicU64 = AtomicU64::new(0);
+
+struct CrashEnv {
+    shim: PathBuf,
+    root: PathBuf,
+}
+
+fn verif_dir_from_env() -> PathBuf {
+    PathBuf::from(std::env::var("TV_VERIF_DIR").unwrap_or_else(|_| "/verif".into()))
+}
+
+/// $TV_SHIM, else <verif>/target/shim/libtvshim.so, else try to build it from <verif>/tv/envshim/shim.c.
+fn find_shim(verif: &Path) -> Result<PathBuf, String> {
+    if let Ok(p) = std::env::var("TV_SHIM") {
+        let p = PathBuf::from(p);
+        if p.is_file() {
+            return Ok(p);
+        }
+        return Err(format!("TV_SHIM={p:?} does not exist"));
+    }
+    let so = verif.join("target/shim/libtvshim.so");
+    if so.is_file() {
+        return Ok(so);
+    }
+    let src = verif.join("tv/envshim/shim.c");
+    if !src.is_file() {
+        return Err(format!("shim library {so:?} missing and no source at {src:?}"));
+    }
+    let _ = std::fs::create_dir_all(so.parent().unwrap());
+    let tmp = so.with_extension(format!("so.{}", std::process::id()));
+    let st = std::process::Command::new("gcc")
+        .args(["-O1", "-shared", "-fPIC", "-o"])
+        .arg(&tmp)
+        .arg(&src)
+        .arg("-ldl")
+        .output()
+        .map_err(|e| format!("cannot run gcc to build the shim: {e}"))?;
+    if !st.status.success() {
+        return Err(format!("building the shim failed: {}", String::from_utf8_lossy(&st.stderr)));
+    }
+    std::fs::rename(&tmp, &so).map_err(|e| format!("installing the shim: {e}"))?;
+    Ok(so)
+}
+
+#[derive(Debug, Clone)]
+struct Call {
+    op: String,
+    flags: u32,
+    n: i64,
+    p1: String,
+    p2: String,
+    mark: String,
+}
+
+fn parse_log(text: &str) -> Vec<Call> {
+    let mut out = Vec::new();
+    for line in text.lines() {
+        let f: Vec<&str> = line.split('\t').collect();
+        if f.len() < 8 {
+            continue;
+        }
+        out.push(Call {
+            op: f[1].to_string(),
+            flags: u32::from_str_radix(f[2], 16).unwrap_or(0),
+            n: f[3].parse().unwrap_or(0),
+            p1: f[5].to_string(),
+            p2: f[6].to_string(),
+            mark: f[7].to_string(),
+        });
+    }
+    out
+}
+
+fn role(path: &str, target: &Path) -> &'static str {
+    let p = Path::new(path);
+    if p == target {
+        "target"
+    } else if Some(p) == target.parent() {
+        "dir"
+    } else {
+        "tmp"
+    }
+}
+
+fn op_desc(c: &Call) -> String {
+    if c.op != "open" {
+        return c.op.clone();
+    }
+    let f = c.flags as i32;
+    if f & libc::O_TRUNC != 0 {
+        "open-trunc".into()
+    } else if f & libc::O_CREAT != 0 && f & libc::O_EXCL != 0 {
+        "open-excl".into()
+    } else if f & libc::O_CREAT != 0 {
+        "open-creat".into()
+    } else if f & libc::O_DIRECTORY != 0 {
+        "open-dir".into()
+    } else if f & libc::O_ACCMODE == libc::O_RDONLY {
+        "open-ro".into()
+    } else {
+        "open-rw".into()
+    }
+}
+
+fn call_desc(c: &Call, target: &Path) -> String {
+    if c.p2.is_empty() {
+        format!("{}:{}", op_desc(c), role(&c.p1, target))
+    } else {
+        format!("{}:{}->{}", op_desc(c), role(&c.p1, target), role(&c.p2, target))
+    }
+}
+
+/// Crash-point KIND from the log of the crashed run: what had completed when the process died.
+/// `start` = nothing yet; `after-<last completed call>`; `mid-write:<file role>`.
+fn crash_kind(calls: &[Call], target: &Path) -> (String, String) {
+    let Some(last) = calls.last() else { return ("unknown".into(), String::new()) };
+    let next = call_desc(last, target);
+    if last.mark == "CRASH-MID" {
+        return (format!("mid-{}", next), next);
+    }
+    if calls.len() == 1 {
+        return ("start".into(), next);
+    }
+    (format!("after-{}", call_desc(&calls[calls.len() - 2], target)), next)
+}
+
+struct ChildRun {
+    code: Option<i32>,
+    stdout: String,
+    stderr: String,
+}
+
+/// `tv --worker c10_store` with the shim preloaded; one case line on stdin.
+fn run_store_child(env: &CrashEnv, target: &Path, snap: &J, log: &Path, crash: Option<(u64, Option<u64>)>) -> Result<ChildRun, String> {
+    use std::io::{Read, Write};
+    use std::process::{Command, Stdio};
+    let exe = std::env::current_exe().map_err(|e| format!("current_exe: {e}"))?;
+    let mut cmd = Command::new(exe);
+    cmd.arg("--worker")
+        .arg("c10_store")
+        .env("LD_PRELOAD", &env.shim)
+        .env("TVSHIM_WATCH", WATCH)
+        .env("TVSHIM_LOG", log)
+        .env_remove("TVSHIM_CRASH_AT")
+        .env_remove("TVSHIM_CRASH_BYTES")
+        .env("TV_RLIMIT_AS", "0")
+        .stdin(Stdio::piped())
+        .stdout(Stdio::piped())
+        .stderr(Stdio::piped());
+    if let Some((k, p)) = crash {
+        cmd.env("TVSHIM_CRASH_AT", k.to_string());
+        if let Some(p) = p {
+            cmd.env("TVSHIM_CRASH_BYTES", p.to_string());
+        }
+    }
+    let mut child = cmd.spawn().map_err(|e| format!("cannot spawn store child: {e}"))?;
+    {
+        let mut stdin = child.stdin.take().unwrap();
+        let line = json!({"path": target.to_string_lossy(), "snap": snap}).to_string();
+        // the child may die before reading everything: ignore EPIPE
+        let _ = writeln!(stdin, "{line}");
+    }
+    let t0 = Instant::now();
+    let status = loop {
+        match child.try_wait() {
+            Ok(Some(s)) => break s,
+            Ok(None) => {
+                if t0.elapsed() > StdDuration::from_secs(30) {
+                    let _ = child.kill();
+                    let _ = child.wait();
+                    return Err("store child did not finish within 30 s".into());
+                }
+                std::thread::sleep(StdDuration::from_micros(300));
+            }
+            Err(e) => return Err(format!("wait for store child: {e}")),
+        }
+    };
+    let mut stdout = String::new();
+    let mut stderr = String::new();
+    if let Some(mut o) = child.stdout.take() {
+        let _ = o.read_to_string(&mut stdout);
+    }
+    if let Some(mut e) = child.stderr.take() {
+        let _ = e.read_to_string(&mut stderr);
+    }
+    Ok(ChildRun { code: status.code(), stdout, stderr })
+}
+
+/// worker `c10_store`: the code under test, executed in the child that gets killed.
+pub fn worker_store(case: &J) -> J {
+    let Some(snap) = js(&case["snap"]) else { return json!({"bad_case": true}) };
+    let path = case["path"].as_str().unwrap_or("");
+    match FileRetainStore::new(path).store(&to_snapshot(&snap)) {
+        Ok(()) => json!({"stored": true}),
+        Err(e) => json!({"store_err": e.to_string()}),
+    }
+}
+
+struct CrashSetup {
+    dir: PathBuf,
+    target: PathBuf,
+    log: PathBuf,
+}
+
+fn crash_setup(env: &CrashEnv, old: Option<&Snap>) -> Result<CrashSetup, String> {
+    let n = SEQ.fetch_add(1, Ordering::Relaxed);
+    let id = format!("{}-{n}", std::process::id());
+    let dir = env.root.join("c10crash").join(&id);
+    let logs = env.root.join("logs");
+    std::fs::create_dir_all(&dir).map_err(|e| format!("create {dir:?}: {e}"))?;
+    std::fs::create_dir_all(&logs).map_err(|e| format!("create {logs:?}: {e}"))?;
+    let target = dir.join("retain.bin");
+    if let Some(old) = old {
+        match catch(|| FileRetainStore::new(&target).store(&to_snapshot(old))) {
+            Ok(Ok(())) => {}
+            other => return Err(format!("cannot write s_old in a healthy process: {other:?}")),
+        }
+    }
+    Ok(CrashSetup { dir, target, log: logs.join(format!("{id}.log")) })
+}
+
+fn crash_cleanup(s: &CrashSetup) {
+    let _ = std::fs::remove_dir_all(&s.dir);
+    let _ = std::fs::remove_file(&s.log);
+}
+
+#[derive(Default)]
+struct CrashEval {
+    reached: bool,
+    kind: String,
+    /// "old" | "new" | "bad"
+    outcome: &'static str,
+    leftovers: usize,
+    viol: Vec<Violation>,
+    machinery: Option<String>,
+}
+
+fn third_snapshot() -> Snap {
+    vec![("z".into(), Value::DInt(333)), ("s3".into(), Value::String(SmolStr::new("third")))]
+}
+
+/// One crash point: {"kind":"crash","pair":..,"old":snap|null,"new":snap,"at":k,"bytes":p|null}.
+fn eval_crash(env: &CrashEnv, case: &J) -> CrashEval {
+    let mut ev = CrashEval { outcome: "bad", ..Default::default() };
+    let old: Option<Snap> = if case["old"].is_null() { None } else { js(&case["old"]) };
+    let Some(new) = js(&case["new"]) else {
+        ev.machinery = Some("bad crash case: no new snapshot".into());
+        return ev;
+    };
+    let at = case["at"].as_u64().unwrap_or(0);
+    let bytes = case["bytes"].as_u64();
+    let pair = case["pair"].as_str().unwrap_or("?");
+    let setup = match crash_setup(env, old.as_ref()) {
+        Ok(s) => s,
+        Err(e) => {
+            ev.machinery = Some(e);
+            return ev;
+        }
+    };
+    let run = match run_store_child(env, &setup.target, &case["new"], &setup.log, Some((at, bytes))) {
+        Ok(r) => r,
+        Err(e) => {
+            ev.machinery = Some(e);
+            crash_cleanup(&setup);
+            return ev;
+        }
+    };
+    if run.code != Some(137) {
+        // crash point not reached (call sequence differs from the recorded one)
+        ev.machinery = Some(format!("crash point {at}/{bytes:?} of pair {pair} not reached: child exit {:?}, stdout {:?}, stderr {:?}", run.code, clip(&run.stdout, 100), clip(&run.stderr, 200)));
+        crash_cleanup(&setup);
+        return ev;
+    }
+    ev.reached = true;
+    let calls = parse_log(&std::fs::read_to_string(&setup.log).unwrap_or_default());
+    let (kind, next) = crash_kind(&calls, &setup.target);
+    ev.kind = kind.clone();
+    ev.leftovers = std::fs::read_dir(&setup.dir).map(|d| d.filter_map(|e| e.ok()).filter(|e| e.path() != setup.target).count()).unwrap_or(0);
+    let disk = match std::fs::metadata(&setup.target) {
+        Ok(m) => format!("{} bytes on disk", m.len()),
+        Err(_) => "file absent".to_string(),
+    };
+    let old_snap: Snap = old.clone().unwrap_or_default();
+    let at_txt = match bytes {
+        Some(p) => format!("after {p} bytes of the write (call #{at}) had reached the file"),
+        None => format!("immediately before call #{at} ({next})"),
+    };
+    let ctx_txt = format!("pair {pair:?} ({}): writer killed {at_txt}; {disk}", if old.is_some() { "old file present" } else { "no old file" });
+    let store = FileRetainStore::new(&setup.target);
+    // `case` is filled in by the caller (cloning a 2 KiB snapshot pair into each of ~10^4 violations
+    // of one signature would cost gigabytes)
+    let mut push = |sig: String, what: String| ev.viol.push(Violation { signature: sig, what, case: J::Null });
+    let mut outcome = "bad";
+    match catch(|| store.load()) {
+        Err(m) => push(format!("C10/crash/{kind}/load-panic"), format!("{ctx_txt}; load() panicked: {m}")),
+        Ok(Err(e)) => push(format!("C10/crash/{kind}/load-err"), format!("{ctx_txt}; load() = Err({e}); the statement requires Ok(old) or Ok(new)")),
+        Ok(Ok(got)) => {
+            if same_snap(&old_snap, &got) {
+                outcome = "old";
+            } else if same_snap(&new, &got) {
+                outcome = "new";
+            } else {
+                let g = snapshot_to_snap(&got);
+                let from_either = g.iter().all(|(n, v)| {
+                    old_snap.iter().chain(new.iter()).any(|(n2, v2)| n == n2 && diff_value(v2, v, "").is_none())
+                });
+                let class = if g.is_empty() {
+                    "empty"
+                } else if from_either {
+                    "mixture"
+                } else {
+                    "other"
+                };
+                push(
+                    format!("C10/crash/{kind}/load-{class}"),
+                    format!("{ctx_txt}; load() = Ok with {} entries which is neither the old ({}) nor the new ({}) snapshot: {}", g.len(), old_snap.len(), new.len(), clip(&sj(&g).to_string(), 160)),
+                );
+            }
+        }
+    }
+    // the store must stay usable: left-over temporaries / partial files must not wedge it
+    // (signature by what the crash left behind, not by crash kind: the cause of a wedged store is
+    // the left-over state, which many crash kinds share)
+    let dir_state = if ev.leftovers > 0 { "leftover-files" } else { "no-leftover" };
+    let s3 = third_snapshot();
+    match catch(|| store.store(&to_snapshot(&s3))) {
+        Err(m) => push(format!("C10/crash-recover/store-panic/{dir_state}"), format!("{ctx_txt}; the next store() panicked: {m}")),
+        Ok(Err(e)) => push(format!("C10/crash-recover/store-err/{dir_state}"), format!("{ctx_txt}; the next store() failed: {e} ({} left-over files)", ev.leftovers)),
+        Ok(Ok(())) => match catch(|| store.load()) {
+            Ok(Ok(got)) if same_snap(&s3, &got) => {}
+            other => push(
+                format!("C10/crash-recover/load-after-store/{dir_state}"),
+                format!("{ctx_txt}; after the next store(s3), load() did not return s3: {}", clip(&format!("{other:?}"), 160)),
+            ),
+        },
+    }
+    ev.outcome = outcome;
+    crash_cleanup(&setup);
+    ev
+}
+
+/// Partial-write lengths for a write of `n` bytes: all of 1..n for small payloads, otherwise the
+/// first/last 64 and every 512-byte boundary.
+fn partial_lengths(n: u64, full_limit: u64) -> Vec<u64> {
+    if n <= full_limit {
+        return (1..n).collect();
+    }
+    let mut s: BTreeSet<u64> = BTreeSet::new();
+    s.extend(1..=64);
+    s.extend(n - 64..n);
+    s.extend((1..).map(|i| i * 512).take_while(|&x| x < n));
+    s.into_iter().collect()
+}
+
+fn big_array(count: usize, seed: i64) -> Value {
+    arr((0..count as i64).map(|i| Value::LInt(seed.wrapping_mul(0x0101_0101_0101).wrapping_add(i))).collect(), vec![(0, count as i64 - 1)])
+}
+
+/// (name, s_old (None = no file yet), s_new), simplest first.
+fn crash_pairs(thorough: bool) -> Vec<(&'static str, Option<Snap>, Snap)> {
+    let small: Snap = vec![("a".into(), Value::Int(1))];
+    let medium: Snap = vec![
+        ("a".into(), Value::Int(2)),
+        ("b".into(), Value::String(SmolStr::new("hello retain"))),
+        ("c".into(), arr(vec![Value::DInt(1), Value::DInt(2), Value::DInt(3)], vec![(0, 2)])),
+        ("d".into(), st("Pt", vec![("x", Value::LReal(1.5)), ("y", Value::LReal(-2.5))])),
+    ];
+    let eq1: Snap = vec![("a".into(), Value::DInt(1)), ("b".into(), Value::DInt(2)), ("c".into(), Value::Bool(false))];
+    let eq2: Snap = vec![("a".into(), Value::DInt(3)), ("b".into(), Value::DInt(4)), ("c".into(), Value::Bool(true))];
+    let nested: Snap = vec![
+        ("é".into(), arr(vec![st("Ünï", vec![("ß", Value::WString("😀".into()))]), st("Ünï", vec![("ß", Value::WString(String::new()))])], vec![(1, 2)])),
+        ("e".into(), en("Color", "Red", 1)),
+        ("n".into(), Value::Null),
+    ];
+    let large1: Snap = vec![("big".into(), big_array(250, 1)), ("tail".into(), Value::Int(7))];
+    let large2: Snap = vec![("big".into(), big_array(250, 2)), ("tail".into(), Value::Int(8))];
+    let mut v = vec![
+        ("fresh", None, small.clone()),
+        ("empty-to-nonempty", Some(vec![]), small.clone()),
+        ("nonempty-to-empty", Some(small.clone()), vec![]),
+        ("equal-size", Some(eq1.clone()), eq2.clone()),
+        ("grow", Some(small.clone()), medium.clone()),
+        ("shrink", Some(medium.clone()), small.clone()),
+        ("same", Some(medium.clone()), medium.clone()),
+        ("nested-non-ascii", Some(medium.clone()), nested.clone()),
+        ("large-grow", Some(small.clone()), large1.clone()),
+        ("large-equal-size", Some(large1.clone()), large2.clone()),
+    ];
+    if thorough {
+        v.push(("large-shrink", Some(large2.clone()), medium.clone()));
+        v.push(("fresh-large", None, large1.clone()));
+        v.push(("nested-to-equal", Some(nested.clone()), eq1.clone()));
+        let all: Snap = reps(&leaves()).into_iter().enumerate().map(|(i, x)| (format!("v{i}"), x)).collect();
+        v.push(("all-tags", Some(eq2.clone()), all.clone()));
+        v.push(("all-tags-shrink", Some(all), small.clone()));
+        v.push(("xlarge", Some(large1.clone()), vec![("big".into(), big_array(1000, 3))]));
+    }
+    v
+}
+
+// ------------------------------------------------------------------------------------------------
+// Family 3: decoder totality.
+
+/// Base snapshots whose real encodings are mutated (every tag occurs; simplest first).
+fn decode_bases() -> Vec<(&'static str, Snap)> {
+    let t = |n: i64| Duration::from_nanos(n);
+    let all: Snap = reps(&leaves()).into_iter().enumerate().map(|(i, x)| (format!("v{i}"), x)).collect();
+    vec![
+        ("empty", vec![]),
+        ("null", vec![("n".into(), Value::Null)]),
+        ("bool", vec![("a".into(), Value::Bool(true))]),
+        ("ints", vec![("i".into(), Value::Int(-2)), ("d".into(), Value::DInt(7))]),
+        ("string", vec![("s".into(), Value::String(SmolStr::new("héllo")))]),
+        ("wstring-empty", vec![("w".into(), Value::WString(String::new()))]),
+        ("array-empty", vec![("e".into(), arr(vec![], vec![]))]),
+        ("array", vec![("arr".into(), arr(vec![Value::Int(1), Value::Int(2)], vec![(1, 2)]))]),
+        ("struct", vec![("st".into(), st("T", vec![("x", Value::DInt(100))]))]),
+        ("enum", vec![("en".into(), en("Color", "Red", 1))]),
+        ("reals", vec![("r".into(), Value::Real(1.5)), ("lr".into(), Value::LReal(f64::NAN))]),
+        (
+            "times",
+            vec![
+                ("t".into(), Value::Time(t(1_000_000_000))),
+                ("lt".into(), Value::LTime(t(-1))),
+                ("d".into(), Value::Date(DateValue::new(1))),
+                ("ld".into(), Value::LDate(LDateValue::new(2))),
+                ("tod".into(), Value::Tod(TimeOfDayValue::new(3))),
+                ("ltod".into(), Value::LTod(LTimeOfDayValue::new(4))),
+                ("dt".into(), Value::Dt(DateTimeValue::new(5))),
+                ("ldt".into(), Value::Ldt(LDateTimeValue::new(6))),
+            ],
+        ),
+        (
+            "bits",
+            vec![
+                ("b".into(), Value::Byte(0x12)),
+                ("w".into(), Value::Word(0x1234)),
+                ("dw".into(), Value::DWord(0x12345678)),
+                ("lw".into(), Value::LWord(0x1234567890abcdef)),
+                ("c".into(), Value::Char(0x41)),
+                ("wc".into(), Value::WChar(0x263a)),
+            ],
+        ),
+        (
+            "unsigned",
+            vec![
+                ("us".into(), Value::USInt(200)),
+                ("ui".into(), Value::UInt(60000)),
+                ("ud".into(), Value::UDInt(4_000_000_000)),
+                ("ul".into(), Value::ULInt(u64::MAX - 1)),
+                ("si".into(), Value::SInt(-100)),
+                ("li".into(), Value::LInt(i64::MIN + 1)),
+            ],
+        ),
+        ("array-of-array", vec![("aa".into(), arr(vec![arr(vec![Value::Int(1)], vec![(0, 0)])], vec![(0, 0)]))]),
+        ("array-of-struct", vec![("as".into(), arr(vec![st("T", vec![("f", Value::String(SmolStr::new("x")))])], vec![(0, 0)]))]),
+        ("struct-of-array", vec![("sa".into(), st("T", vec![("a", arr(vec![Value::Bool(true)], vec![(0, 0)]))]))]),
+        ("matrix", vec![("m".into(), arr(vec![Value::USInt(1), Value::USInt(2), Value::USInt(3), Value::USInt(4)], vec![(0, 1), (0, 1)]))]),
+        ("two-entries", vec![("a".into(), Value::Bool(false)), ("b".into(), arr(vec![Value::Null], vec![(0, 0)]))]),
+        ("all-tags", all),
+        ("large", vec![("big".into(), big_array(250, 1)), ("tail".into(), Value::Int(7))]),
+    ]
+}
+
+/// Field label of every byte of a well-formed image, from the engine's own reading of the format
+/// (used for signatures only — never as an oracle). None if the image is not well-formed.
+fn annotate(b: &[u8]) -> Option<Vec<&'static str>> {
+    struct P<'a> {
+        b: &'a [u8],
+        o: usize,
+        lab: Vec<&'static str>,
+    }
+    impl P<'_> {
+        fn take(&mut self, n: usize, l: &'static str) -> Option<&[u8]> {
+            let e = self.o.checked_add(n)?;
+            if e > self.b.len() {
+                return None;
+            }
+            for x in &mut self.lab[self.o..e] {
+                *x = l;
+            }
+            let s = &self.b[self.o..e];
+            self.o = e;
+            Some(s)
+        }
+        fn u32(&mut self, l: &'static str) -> Option<usize> {
+            let s = self.take(4, l)?;
+            Some(u32::from_le_bytes([s[0], s[1], s[2], s[3]]) as usize)
+        }
+        fn string(&mut self, l_len: &'static str, l_bytes: &'static str) -> Option<()> {
+            let n = self.u32(l_len)?;
+            self.take(n, l_bytes)?;
+            Some(())
+        }
+        fn value(&mut self, depth: usize) -> Option<()> {
+            if depth > 64 {
+                return None;
+            }
+            let t = self.take(1, "tag")?[0];
+            match t {
+                1 | 2 | 6 | 12 | 26 => self.take(1, "payload").map(|_| ()),
+                3 | 7 | 13 | 27 => self.take(2, "payload").map(|_| ()),
+                4 | 8 | 10 | 14 => self.take(4, "payload").map(|_| ()),
+                5 | 9 | 11 | 15 | 16..=23 => self.take(8, "payload").map(|_| ()),
+                24 | 25 => self.string("string.len", "string.bytes"),
+                28 => {
+                    let len = self.u32("array.len")?;
+                    let dims = self.u32("array.dims")?;
+                    for _ in 0..dims {
+                        self.take(16, "array.bounds")?;
+                    }
+                    for _ in 0..len {
+                        self.value(depth + 1)?;
+                    }
+                    Some(())
+                }
+                29 => {
+                    self.string("struct.type.len", "struct.type.bytes")?;
+                    let n = self.u32("struct.count")?;
+                    for _ in 0..n {
+                        self.string("field.len", "field.bytes")?;
+                        self.value(depth + 1)?;
+                    }
+                    Some(())
+                }
+                30 => {
+                    self.string("enum.type.len", "enum.type.bytes")?;
+                    self.string("enum.variant.len", "enum.variant.bytes")?;
+                    self.take(8, "enum.value").map(|_| ())
+                }
+                31 => Some(()),
+                _ => None,
+            }
+        }
+    }
+    let mut p = P { b, o: 0, lab: vec!["?"; b.len()] };
+    p.take(4, "magic")?;
+    p.take(2, "version")?;
+    let n = p.u32("count")?;
+    for _ in 0..n {
+        p.string("name.len", "name.bytes")?;
+        p.value(0)?;
+    }
+    if p.o != b.len() {
+        return None;
+    }
+    Some(p.lab)
+}
+
+pub const NEST_SHAPES: &[&str] = &["array", "struct", "alt", "array-cut"];
+
+/// Hand-encoded image with one entry "v" whose value nests `depth` containers.
+/// array: [28][len=1][dims=0]… innermost [28][0][0]; struct: [29][""][count=1]["f"]… innermost [29][""][0];
+/// alt: array/struct alternating; array-cut: `depth` array headers, then the file ends.
+fn nest_bytes(shape: &str, depth: usize) -> Vec<u8> {
+    let mut b = Vec::with_capacity(24 + depth * 14);
+    b.extend_from_slice(b"STRN");
+    b.extend_from_slice(&1u16.to_le_bytes());
+    b.extend_from_slice(&1u32.to_le_bytes());
+    b.extend_from_slice(&1u32.to_le_bytes());
+    b.push(b'v');
+    let arr_level = |b: &mut Vec<u8>, n: u32| {
+        b.push(28);
+        b.extend_from_slice(&n.to_le_bytes());
+        b.extend_from_slice(&0u32.to_le_bytes());
+    };
+    let st_level = |b: &mut Vec<u8>, n: u32| {
+        b.push(29);
+        b.extend_from_slice(&0u32.to_le_bytes());
+        b.extend_from_slice(&n.to_le_bytes());
+        if n == 1 {
+            b.extend_from_slice(&1u32.to_le_bytes());
+            b.push(b'f');
+        }
+    };
+    for lvl in 1..=depth {
+        let inner = lvl == depth;
+        let as_struct = match shape {
+            "struct" => true,
+            "alt" => lvl % 2 == 0,
+            _ => false,
+        };
+        let n = if inner && shape != "array-cut" { 0 } else { 1 };
+        if as_struct {
+            st_level(&mut b, n);
+        } else {
+            arr_level(&mut b, n);
+        }
+    }
+    b
+}
+
+fn mutate(base: &[u8], case: &J) -> Option<Vec<u8>> {
+    if let Some(len) = case["len"].as_u64() {
+        return base.get(..len as usize).map(<[u8]>::to_vec);
+    }
+    let off = case["off"].as_u64()? as usize;
+    let bytes = unhex(case["bytes"].as_str()?)?;
+    let mut b = base.to_vec();
+    b.get_mut(off..off + bytes.len())?.copy_from_slice(&bytes);
+    Some(b)
+}
+
+fn base_bytes_for(case: &J, dir: &Path) -> Option<std::sync::Arc<Vec<u8>>> {
+    use std::sync::{Arc, Mutex, OnceLock};
+    if let Some(h) = case["base_hex"].as_str() {
+        return unhex(h).map(Arc::new);
+    }
+    static CACHE: OnceLock<Mutex<HashMap<u64, Arc<Vec<u8>>>>> = OnceLock::new();
+    let i = case["base"].as_u64()?;
+    let mut c = CACHE.get_or_init(Default::default).lock().ok()?;
+    if let Some(b) = c.get(&i) {
+        return Some(b.clone());
+    }
+    let b = Arc::new(std::fs::read(dir.join(format!("base{i}.bin"))).ok()?);
+    c.insert(i, b.clone());
+    Some(b)
+}
+
+/// worker `c10_decode`: builds the image, writes it where the real store reads it, calls load().
+pub fn worker_decode(case: &J) -> J {
+    let dir = PathBuf::from(std::env::var("TV_C10_DIR").unwrap_or_else(|_| "/tmp".into()));
+    let bytes = if let Some(n) = case.get("nest") {
+        nest_bytes(n["shape"].as_str().unwrap_or(""), n["depth"].as_u64().unwrap_or(1) as usize)
+    } else {
+        let Some(base) = base_bytes_for(case, &dir) else { return json!({"r": "bad-case"}) };
+        let Some(b) = mutate(&base, case) else { return json!({"r": "bad-case"}) };
+        b
+    };
+    let path = dir.join(format!("w{}.bin", std::process::id()));
+    // fresh inode every time: rewriting by truncation makes ext4 flush on close (~4 ms per case)
+    let _ = std::fs::remove_file(&path);
+    if std::fs::write(&path, &bytes).is_err() {
+        return json!({"r": "bad-case"});
+    }
+    drop(bytes);
+    match FileRetainStore::new(&path).load() {
+        Ok(s) => {
+            let n = s.values().len();
+            // a deeply nested value would recurse again when dropped; that is not part of load()
+            std::mem::forget(s);
+            json!({"r": "ok", "n": n})
+        }
+        Err(e) => json!({"r": "err", "msg": e.to_string()}),
+    }
+}
+
+fn decode_label(case: &J) -> String {
+    if let Some(n) = case.get("nest") {
+        // the cut-off sweep exercises the same branch as the complete one; alternating = mixed
+        return match n["shape"].as_str().unwrap_or("?") {
+            "array" | "array-cut" => "nesting:array".to_string(),
+            "alt" => "nesting:mixed".to_string(),
+            other => format!("nesting:{other}"),
+        };
+    }
+    if case.get("len").is_some() {
+        return "truncation".into();
+    }
+    case["label"].as_str().unwrap_or("?").to_string()
+}
+
+/// Maps a worker outcome to (class for counters, violation?).
+fn judge_decode(case: &J, o: &iso::Outcome) -> (String, Option<Violation>) {
+    let label = decode_label(case);
+    let describe = || {
+        if let Some(n) = case.get("nest") {
+            format!("hand-encoded image with {} nested containers (shape {})", n["depth"], n["shape"])
+        } else if let Some(l) = case["len"].as_u64() {
+            format!("image {:?} truncated to {l} bytes", case["base_name"].as_str().unwrap_or("?"))
+        } else {
+            format!("image {:?} with bytes {} written at offset {} (field {label})", case["base_name"].as_str().unwrap_or("?"), case["bytes"], case["off"])
+        }
+    };
+    match o {
+        iso::Outcome::Ok(v) => match v["r"].as_str() {
+            Some("ok") => ("ok".into(), None),
+            Some("err") => (format!("err:{}", norm_msg(v["msg"].as_str().unwrap_or(""))), None),
+            _ => ("bad-case".into(), None),
+        },
+        iso::Outcome::Panic(m) => (
+            "panic".into(),
+            Some(Violation { signature: format!("C10/decode/panic/{label}/{}", norm_msg(m)), what: format!("load() panicked on {}: {m}", describe()), case: case.clone() }),
+        ),
+        iso::Outcome::Died(m) => {
+            let class = if m.contains("memory allocation") || m.contains("capacity overflow") {
+                "abort:alloc"
+            } else if m.contains("overflowed its stack") || m.contains("stack overflow") {
+                "abort:stack"
+            } else {
+                "abort:other"
+            };
+            (
+                class.into(),
+                Some(Violation {
+                    signature: format!("C10/decode/{class}/{label}"),
+                    what: format!("load() killed the process (1 GiB address space, 8 MiB stack) instead of returning Err on {}: {}", describe(), clip(m, 200)),
+                    case: case.clone(),
+                }),
+            )
+        }
+        iso::Outcome::Timeout => (
+            "timeout".into(),
+            Some(Violation { signature: format!("C10/decode/timeout/{label}"), what: format!("load() did not return within the per-case limit on {}", describe()), case: case.clone() }),
+        ),
+    }
+}
+
+/// Scratch directory of the decode family: the images are rewritten ~10^5 times, which costs
+/// 1-4 ms per case on ext4 but ~0.1 ms on tmpfs — so /dev/shm is used when it is writable (where
+/// the bytes live is irrelevant to the decoder), else the engine's work dir. Removed on drop.
+struct DecodeDir(PathBuf);
+
+impl DecodeDir {
+    fn new(work: &Path) -> Result<Self, Machinery> {
+        let shm = PathBuf::from(format!("/dev/shm/tv-C10-{}-dec", std::process::id()));
+        if std::fs::create_dir_all(&shm).is_ok() && std::fs::write(shm.join("probe"), b"x").is_ok() {
+            let _ = std::fs::remove_file(shm.join("probe"));
+            return Ok(DecodeDir(shm));
+        }
+        let d = work.join("dec");
+        std::fs::create_dir_all(&d).map_err(|e| Machinery(format!("create {d:?}: {e}")))?;
+        Ok(DecodeDir(d))
+    }
+}
+
+impl Drop for DecodeDir {
+    fn drop(&mut self) {
+        let _ = std::fs::remove_dir_all(&self.0);
+    }
+}
+
+fn decode_pool(dir: &Path, procs: usize, deadline: Option<Instant>) -> iso::PoolCfg {
+    iso::PoolCfg {
+        worker: "c10_decode",
+        procs,
+        rlimit_as: 1 << 30,
+        per_case: StdDuration::from_secs(60),
+        deadline,
+        // no backtrace on abort: symbolising one costs ~0.3 s per dying worker
+        env: vec![("TV_C10_DIR".into(), dir.to_string_lossy().into_owned()), ("RUST_BACKTRACE".into(), "0".into())],
+        stack: 8 << 20,
+    }
+}
+
+/// All single mutations of one base image, in a fixed order (substitutions, truncations, windows).
+fn decode_mutations(bi: usize, name: &str, base: &[u8], labels: &[&'static str], all256_limit: usize) -> Vec<J> {
+    let mut out = Vec::new();
+    let n = base.len();
+    for off in 0..n {
+        let b = base[off];
+        let vals: Vec<u8> = if n <= all256_limit {
+            (0..=255u8).filter(|v| *v != b).collect()
+        } else {
+            let s: BTreeSet<u8> = [0, 1, 0x7f, 0x80, 0xff, b.wrapping_sub(1), b.wrapping_add(1)].into_iter().filter(|v| *v != b).collect();
+            s.into_iter().collect()
+        };
+        for v in vals {
+            out.push(json!({"kind": "decode", "family": "subst", "base": bi, "base_name": name, "off": off, "bytes": hex(&[v]), "label": labels[off]}));
+        }
+    }
+    for len in 0..n {
+        out.push(json!({"kind": "decode", "family": "trunc", "base": bi, "base_name": name, "len": len}));
+    }
+    let words: [u32; 5] = [0, 1, 0x7fff_ffff, 0x8000_0000, 0xffff_ffff];
+    for off in 0..n.saturating_sub(3) {
+        let mut seen: HashSet<[u8; 4]> = HashSet::new();
+        for w in words {
+            // the format is little endian; big endian images of the same words are tried as well
+            for bytes in [w.to_le_bytes(), w.to_be_bytes()] {
+                if bytes[..] == base[off..off + 4] || !seen.insert(bytes) {
+                    continue;
+                }
+                out.push(json!({"kind": "decode", "family": "window", "base": bi, "base_name": name, "off": off, "bytes": hex(&bytes), "label": labels[off]}));
+            }
+        }
+    }
+    out
+}
+
+// ------------------------------------------------------------------------------------------------
+// Driver.
+
+fn collect_tags(v: &Value, nested: bool, top: &mut BTreeSet<&'static str>, inner: &mut BTreeSet<&'static str>) {
+    if nested {
+        inner.insert(tag(v));
+    } else {
+        top.insert(tag(v));
+    }
+    match v {
+        Value::Array(a) => a.elements.iter().for_each(|e| collect_tags(e, true, top, inner)),
+        Value::Struct(s) => s.fields.values().for_each(|e| collect_tags(e, true, top, inner)),
+        _ => {}
+    }
+}
+
+pub fn run(ctx: &Ctx) -> EngineResult {
+    quiet_panics();
+    let mut rep = Report::new("fault_enumeration");
+    let thorough = ctx.tier == Tier::Thorough;
+    let deadline = Instant::now() + StdDuration::from_secs(ctx.tier.pick(38, 840));
+    let work = ctx.work_dir();
+    let mut exhaustive = true;
+
+    // ---------------------------------------------------------------- 1. codec round trip
+    let snaps = codec_snapshots(thorough);
+    let (mut top, mut inner) = (BTreeSet::new(), BTreeSet::new());
+    let mut max_depth = 0;
+    for s in &snaps {
+        for (_, v) in s {
+            collect_tags(v, false, &mut top, &mut inner);
+            max_depth = max_depth.max(nest_depth(v));
+        }
+    }
+    if top.len() != 31 || inner.len() != 31 || max_depth != 2 {
+        return machinery(format!("codec alphabet incomplete: {} top-level tags, {} nested tags, depth {max_depth}", top.len(), inner.len()));
+    }
+    let chunk = 128usize;
+    let chunks: Vec<usize> = (0..snaps.len().div_ceil(chunk)).collect();
+    let res = par_map(&chunks, ctx.threads, 8 << 20, Some(deadline), |_, &c| {
+        let path = work.join(format!("codec-{c}.bin"));
+        let mut hashes = HashSet::new();
+        let (mut n, mut bytes, mut reordered) = (0u64, 0u64, 0u64);
+        let mut viol = Vec::new();
+        for s in &snaps[c * chunk..((c + 1) * chunk).min(snaps.len())] {
+            let o = codec_check(&path, s);
+            n += 1;
+            if let Some(b) = &o.bytes {
+                hashes.insert(hash64(b));
+                bytes += b.len() as u64;
+            }
+            if !o.order_kept {
+                reordered += 1;
+            }
+            viol.extend(o.viol);
+        }
+        let _ = std::fs::remove_file(&path);
+        (n, bytes, reordered, hashes, viol)
+    });
+    let mut codec_hashes: HashSet<u64> = HashSet::new();
+    let (mut codec_n, mut codec_bytes, mut codec_reordered) = (0u64, 0u64, 0u64);
+    for r in res {
+        match r {
+            Some((n, b, ro, h, v)) => {
+                codec_n += n;
+                codec_bytes += b;
+                codec_reordered += ro;
+                codec_hashes.extend(h);
+                rep.violations_from(v);
+            }
+            None => exhaustive = false,
+        }
+    }
+    if !exhaustive {
+        rep.cap("codec: wall cap reached");
+    }
+    if codec_n == 0 || codec_hashes.len() < 100 {
+        return machinery("codec family vacuous");
+    }
+    rep.set("codec_roundtrips", codec_n);
+    rep.set("codec_distinct_encodings", codec_hashes.len() as u64);
+    rep.set("codec_bytes_written", codec_bytes);
+    rep.set("codec_entry_order_changed", codec_reordered);
+    rep.set("codec_tags_top_level", top.len() as u64);
+    rep.set("codec_tags_nested", inner.len() as u64);
+    rep.set("codec_max_nesting_depth", max_depth as u64);
+    rep.sample(json!({"family": "codec", "snap": sj(&snaps[snaps.len() / 3])}));
+    eprintln!("[C10] codec: {codec_n} round trips, {} distinct encodings at {:.1}s", codec_hashes.len(), ctx.elapsed());
+
+    // ---------------------------------------------------------------- 2. crash atomicity
+    let shim = find_shim(&ctx.verif_dir).map_err(Machinery)?;
+    let env = CrashEnv { shim, root: work.join("x4") };
+    let full_limit: u64 = ctx.tier.pick(512, 16384);
+    // (pair index, call index, bytes of a partial write); the full case is built on demand
+    let mut crash_points: Vec<(usize, u64, Option<u64>)> = Vec::new();
+    let mut pair_bases: Vec<J> = Vec::new();
+    let mut completed_runs = 0u64;
+    let mut sequences = serde_json::Map::new();
+    let mut mid_points = 0u64;
+    for (name, old, new) in crash_pairs(thorough) {
+        // logging run: learn the call sequence of store(s_new)
+        let setup = crash_setup(&env, old.as_ref()).map_err(Machinery)?;
+        let run = run_store_child(&env, &setup.target, &sj(&new), &setup.log, None).map_err(Machinery)?;
+        let calls = parse_log(&std::fs::read_to_string(&setup.log).unwrap_or_default());
+        let loaded = catch(|| FileRetainStore::new(&setup.target).load());
+        let ok = run.code == Some(0) && run.stdout.contains("\"stored\":true") && matches!(&loaded, Ok(Ok(g)) if same_snap(&new, g));
+        let descs: Vec<String> = calls.iter().map(|c| if c.op.contains("write") { format!("{}[{}]", call_desc(c, &setup.target), c.n) } else { call_desc(c, &setup.target) }).collect();
+        crash_cleanup(&setup);
+        if !ok {
+            return machinery(format!("pair {name}: undisturbed store() in the child under the shim did not produce s_new (exit {:?}, stdout {:?}, stderr {:?})", run.code, clip(&run.stdout, 120), clip(&run.stderr, 200)));
+        }
+        if !calls.iter().any(|c| c.op.contains("write")) || !calls.iter().any(|c| c.op == "open") {
+            return machinery(format!("pair {name}: the shim saw no open/write on the retain file (calls: {descs:?}) — interposition is not effective"));
+        }
+        sequences.insert(name.to_string(), json!(descs));
+        completed_runs += 1;
+        let pi = pair_bases.len();
+        pair_bases.push(json!({"kind": "crash", "pair": name, "old": old.as_ref().map(sj), "new": sj(&new)}));
+        for (i, c) in calls.iter().enumerate() {
+            let k = i as u64 + 1;
+            crash_points.push((pi, k, None));
+            if (c.op == "write" || c.op == "pwrite") && c.n >= 2 {
+                for p in partial_lengths(c.n as u64, full_limit) {
+                    crash_points.push((pi, k, Some(p)));
+                    mid_points += 1;
+                }
+            }
+        }
+    }
+    let crash_case = |&(pi, k, p): &(usize, u64, Option<u64>)| {
+        let mut case = pair_bases[pi].clone();
+        case["at"] = json!(k);
+        case["bytes"] = json!(p);
+        case
+    };
+    rep.set("crash_call_sequences", J::Object(sequences));
+    let res = par_map(&crash_points, ctx.threads, 2 << 20, Some(deadline), |_, pt| eval_crash(&env, &crash_case(pt)));
+    let mut by_kind: BTreeMap<String, [u64; 3]> = BTreeMap::new();
+    let (mut crash_n, mut leftovers, mut nontrivial_crash) = (0u64, 0u64, 0u64);
+    let mut crash_capped = false;
+    // the undisturbed runs above are the crash point "after the last call": load() gave s_new
+    by_kind.insert("complete".into(), [0, completed_runs, 0]);
+    for (pt, r) in crash_points.iter().zip(res) {
+        let Some(ev) = r else {
+            crash_capped = true;
+            continue;
+        };
+        if let Some(m) = ev.machinery {
+            return machinery(format!("crash family: {m}"));
+        }
+        crash_n += 1;
+        if ev.kind != "start" {
+            nontrivial_crash += 1;
+        }
+        if ev.leftovers > 0 {
+            leftovers += 1;
+        }
+        let slot = by_kind.entry(ev.kind.clone()).or_insert([0; 3]);
+        slot[match ev.outcome {
+            "old" => 0,
+            "new" => 1,
+            _ => 2,
+        }] += 1;
+        if crash_n == 2 {
+            rep.sample(json!({"family": "crash", "pair": pair_bases[pt.0]["pair"], "at": pt.1, "bytes": pt.2, "kind": ev.kind, "load": ev.outcome}));
+        }
+        for mut v in ev.viol {
+            if !rep.violation_counts.contains_key(&v.signature) {
+                v.case = crash_case(pt);
+            }
+            rep.violation(v);
+        }
+    }
+    if crash_capped {
+        exhaustive = false;
+        rep.cap("crash points: wall cap reached");
+    }
+    let olds: u64 = by_kind.values().map(|s| s[0]).sum();
+    let news: u64 = by_kind.values().map(|s| s[1]).sum();
+    if crash_n == 0 || mid_points == 0 || olds == 0 || (news == 0 && !crash_capped) {
+        return machinery(format!("crash family vacuous: {crash_n} crash points, {mid_points} partial-write points, {olds} loads of s_old, {news} loads of s_new"));
+    }
+    rep.set("crash_pairs", crash_pairs(thorough).len() as u64);
+    rep.set("crash_points", crash_points.len() as u64);
+    rep.set("crash_points_executed", crash_n);
+    rep.set("crash_points_partial_write", mid_points);
+    rep.set("crash_points_with_leftover_files", leftovers);
+    rep.set(
+        "crash_outcomes_by_kind",
+        J::Object(by_kind.iter().map(|(k, s)| (k.clone(), json!({"loaded_old": s[0], "loaded_new": s[1], "violations": s[2]}))).collect()),
+    );
+    eprintln!("[C10] crash: {crash_n} crash points over {} kinds at {:.1}s", by_kind.len(), ctx.elapsed());
+
+    // ---------------------------------------------------------------- 3. decoder totality
+    let scratch = DecodeDir::new(&work)?;
+    let ddir = scratch.0.clone();
+    let all256_limit: usize = ctx.tier.pick(64, 4096);
+    let mut dcases: Vec<J> = Vec::new();
+    let mut base_images: Vec<Vec<u8>> = Vec::new();
+    let mut base_sizes = serde_json::Map::new();
+    for (i, (name, snap)) in decode_bases().iter().enumerate() {
+        let path = ddir.join(format!("base{i}.bin"));
+        match catch(|| FileRetainStore::new(&path).store(&to_snapshot(snap))) {
+            Ok(Ok(())) => {}
+            other => return machinery(format!("cannot encode base image {name}: {other:?}")),
+        }
+        let bytes = std::fs::read(&path).map_err(|e| Machinery(format!("read {path:?}: {e}")))?;
+        let Some(labels) = annotate(&bytes) else {
+            return machinery(format!("base image {name} does not follow the STRN v1 layout the engine knows (format changed?) — decode labels and nesting sweeps would be meaningless"));
+        };
+        base_sizes.insert(name.to_string(), json!(bytes.len()));
+        dcases.extend(decode_mutations(i, name, &bytes, &labels, all256_limit));
+        base_images.push(bytes);
+    }
+    let mutation_cases = dcases.len();
+    let depths: Vec<usize> = ctx.tier.pick(vec![1, 2, 3, 16, 128, 1024, 10_000, 100_000], vec![1, 2, 3, 4, 8, 16, 32, 64, 128, 256, 512, 1024, 2048, 4096, 10_000, 30_000, 100_000, 300_000, 1_000_000]);
+    for shape in NEST_SHAPES {
+        for &d in &depths {
+            if *shape != "array-cut" && d <= 3 && annotate(&nest_bytes(shape, d)).is_none() {
+                return machinery(format!("hand-encoded nesting image {shape}/{d} is not well-formed"));
+            }
+            dcases.push(json!({"kind": "decode", "family": "nest", "nest": {"shape": shape, "depth": d}}));
+        }
+    }
+    let mut distinct_inputs: HashSet<u64> = HashSet::new();
+    let outs = iso::run_pool(&decode_pool(&ddir, ctx.threads, Some(deadline)), &dcases).map_err(Machinery)?;
+    let mut classes: BTreeMap<String, u64> = BTreeMap::new();
+    let mut by_family: BTreeMap<String, u64> = BTreeMap::new();
+    let (mut decode_n, mut decode_capped, mut nest_ok) = (0u64, false, 0u64);
+    let mut decode_viol: Vec<Violation> = Vec::new();
+    for (case, o) in dcases.iter().zip(outs) {
+        let Some(o) = o else {
+            decode_capped = true;
+            continue;
+        };
+        decode_n += 1;
+        if let Some(bi) = case["base"].as_u64() {
+            let base = &base_images[bi as usize];
+            if let Some(b) = mutate(base, case) {
+                if &b != base {
+                    distinct_inputs.insert(hash64(&b));
+                }
+            }
+        } else {
+            distinct_inputs.insert(hash64(case.to_string().as_bytes()));
+        }
+        *by_family.entry(case["family"].as_str().unwrap_or("?").to_string()).or_insert(0) += 1;
+        let (class, v) = judge_decode(case, &o);
+        if class == "bad-case" {
+            return machinery(format!("decode worker could not build case {case}"));
+        }
+        if case.get("nest").is_some() {
+            let (shape, d) = (case["nest"]["shape"].as_str().unwrap_or(""), case["nest"]["depth"].as_u64().unwrap_or(0));
+            if class == "ok" {
+                nest_ok += 1;
+            }
+            if d == 1 && shape != "array-cut" && class != "ok" {
+                return machinery(format!("hand-encoded nesting image {shape}/1 is not accepted by the decoder ({class}) — sweep would be vacuous"));
+            }
+        }
+        *classes.entry(class).or_insert(0) += 1;
+        if let Some(mut v) = v {
+            if let Some(bi) = case["base"].as_u64() {
+                v.case["base_hex"] = json!(hex(&base_images[bi as usize]));
+            }
+            decode_viol.push(v);
+        }
+    }
+    // Witness per signature: the first case — except for allocation aborts, where the first case in
+    // enumeration order is by construction the one closest to the address-space limit; prefer the
+    // first one that asks for >= 4 GiB so that the replay does not depend on the limit.
+    let mut preferred: HashSet<String> = HashSet::new();
+    let (first, rest): (Vec<Violation>, Vec<Violation>) = decode_viol.into_iter().partition(|v| {
+        let big = v.what.split("memory allocation of ").nth(1).and_then(|t| t.split(' ').next()).and_then(|n| n.parse::<u64>().ok()).is_some_and(|n| n >= 4 << 30);
+        big && preferred.insert(v.signature.clone())
+    });
+    rep.violations_from(first);
+    rep.violations_from(rest);
+    if decode_capped {
+        exhaustive = false;
+        rep.cap("decoder mutations: wall cap reached");
+    }
+    let oks = classes.get("ok").copied().unwrap_or(0);
+    let err_kinds = classes.keys().filter(|k| k.starts_with("err:")).count();
+    if decode_n == 0 || oks == 0 || err_kinds < 3 {
+        return machinery(format!("decode family vacuous: {decode_n} cases, {oks} Ok, {err_kinds} distinct errors"));
+    }
+    rep.set("decode_cases", decode_n);
+    rep.set("decode_cases_by_family", json!(by_family));
+    rep.set("decode_base_image_sizes", J::Object(base_sizes));
+    rep.set("decode_all256_substitution_up_to_bytes", all256_limit as u64);
+    rep.set("decode_outcome_classes", json!(classes));
+    rep.set("decode_nesting_depths", json!(depths));
+    rep.set("decode_nesting_cases_ok", nest_ok);
+    rep.set("decode_distinct_mutated_images", distinct_inputs.len() as u64);
+    rep.sample(dcases[mutation_cases / 2].clone());
+    rep.sample(dcases[dcases.len() - 1].clone());
+    eprintln!("[C10] decode: {decode_n} cases at {:.1}s", ctx.elapsed());
+
+    rep.set("evaluations", codec_n + crash_n + decode_n);
+    rep.set("distinct_nontrivial", codec_hashes.len() as u64 + nontrivial_crash + distinct_inputs.len() as u64);
+    rep.set("rule", format!("codec: every leaf value (31 tags x boundary payloads), every depth-1 container over the leaves (arrays of length 0..3 with 0..2 dimensions, structs with 0..2 fields, pairs over one representative per tag; thorough: pairs over all leaves), every depth-2 container over those, and snapshot-level shapes (names, 0..N entries), each stored and loaded through FileRetainStore. crash: for every (s_old,s_new) pair the call sequence of store(s_new) is recorded under the LD_PRELOAD shim, then the child is killed before every intercepted call and inside every write after p bytes (all p for writes <= {full_limit} B, else first/last 64 and multiples of 512). decode: per base image every single-byte substitution (all 256 values for images <= {all256_limit} B, else {{0,1,7f,80,ff,b-1,b+1}}), every truncation, every 4-byte window x {{0,1,2^31-1,2^31,2^32-1}} LE+BE, and nesting sweeps of hand-encoded arrays/structs, one isolated process per outcome. distinct_nontrivial = distinct encoded images (codec) + crash points at which at least one intercepted call had completed + distinct mutated images that differ from their base."));
+    rep.set("exhaustive", exhaustive);
+    rep.assume("only process death is modelled: bytes written before the kill are visible to load(); page-cache loss / power failure is not injected");
+    rep.assume("decoder totality is judged in a process with a 1 GiB address-space limit on an 8 MiB stack; nesting claimed only to the listed depths");
+    rep.assume("entry order of snapshots/struct fields is not part of the oracle (the subject's own equality ignores it); order changes are counted in codec_entry_order_changed");
+    Ok(rep)
+}
+
+pub fn check_case(case: &J) -> Vec<Violation> {
+    let root = verif_dir_from_env().join(".work").join(format!("C10-replay-{}-{}", std::process::id(), SEQ.fetch_add(1, Ordering::Relaxed)));
+    if std::fs::create_dir_all(&root).is_err() {
+        eprintln!("C10 replay: cannot create {root:?}");
+        return Vec::new();
+    }
+    let out = match case["kind"].as_str() {
+        Some("codec") => match js(&case["snap"]) {
+            Some(s) => codec_check(&root.join("codec.bin"), &s).viol,
+            None => Vec::new(),
+        },
+        Some("crash") => match find_shim(&verif_dir_from_env()) {
+            Ok(shim) => {
+                let mut ev = eval_crash(&CrashEnv { shim, root: root.clone() }, case);
+                if let Some(m) = ev.machinery {
+                    eprintln!("C10 replay: {m}");
+                }
+                ev.viol.iter_mut().for_each(|v| v.case = case.clone());
+                ev.viol
+            }
+            Err(e) => {
+                eprintln!("C10 replay: {e}");
+                Vec::new()
+            }
+        },
+        Some("decode") => match iso::run_pool(&decode_pool(&root, 1, None), std::slice::from_ref(case)) {
+            Ok(o) => o.into_iter().flatten().filter_map(|o| judge_decode(case, &o).1).collect(),
+            Err(e) => {
+                eprintln!("C10 replay: {e}");
+                Vec::new()
+            }
+        },
+        _ => Vec::new(),
+    };
+    let _ = std::fs::remove_dir_all(&root);
+    out
+}
+
+pub fn workers() -> Vec<(&'static str, iso::WorkerFn)> {
+    vec![("c10_store", worker_store as iso::WorkerFn), ("c10_decode", worker_decode as iso::WorkerFn)]
 }
